@@ -26,7 +26,7 @@ import (
 
 // Step is one codec call of a sequence.
 type Step struct {
-	Op   string `json:"op"`             // enc: the exported MarshalJSON method | encjson: json.Marshal | dec: json.Unmarshal (text types: UnmarshalText, form types: the form decoder) | mut: the caller changes a value in place
+	Op   string `json:"op"`             // enc: the exported MarshalJSON method | encjson: json.Marshal | dec: json.Unmarshal (text types: UnmarshalText, form types: the form decoder) | mut: the caller changes a value in place | copy: the caller copies a decoded value BY VALUE (Dests[Dest-1] = *destination of step Ref), see copy_test.go
 	Type string `json:"type,omitempty"` // claims type (enc, encjson); decoder type (dec into a fresh destination)
 	Val  *Obj   `json:"val,omitempty"`  // enc, encjson
 	Doc  string `json:"doc,omitempty"`  // dec
@@ -41,6 +41,7 @@ type Step struct {
 type Dest struct {
 	Type string `json:"type"`
 	Pre  *Obj   `json:"pre,omitempty"` // claims types: the destination holds this value before the first document
+	Copy bool   `json:"copy,omitempty"` // the destination comes into being as the by-value copy a step of kind "copy" takes
 }
 
 const (
@@ -65,6 +66,10 @@ type stepRun struct {
 	m         *mutator
 	mutAfter  *snap // claims destination: content after the change
 	mutAfterS any   // stand-alone variable: value after the change
+	// copy: d = the copy (a destination of its own), src = the destination that is copied by value
+	src        *dest
+	copyAfter  *snap
+	copyAfterS any
 }
 
 func (r *stepRun) exec() {
@@ -91,6 +96,16 @@ func (r *stepRun) exec() {
 				r.m = mutateBinding(r.prep.b, sortedKeys(r.prep.custom(r.prep.val)), r.st.Mut, r.st.Sel)
 			}
 		})
+	case "copy":
+		// kept := *D - no library code runs
+		r.pan, r.stack = guarded(func() {
+			copyDest(r.d, r.src)
+			if r.d.sc != nil {
+				r.copyAfterS = r.d.sc.value()
+			} else {
+				r.copyAfter = snapshot(r.d.b, r.d.keys)
+			}
+		})
 	}
 }
 
@@ -107,8 +122,10 @@ func runSteps(c Case, workers [][]Step, concurrent bool, res *vkit.Result) {
 
 	// phase 1 (this goroutine): build the values that will be encoded and the destinations
 	runs := make([][]*stepRun, len(workers))
-	total, kept, reusedSteps, preSteps, muts := 0, 0, 0, 0, 0
+	total, kept, reusedSteps, preSteps, muts, copies, intoCopy, intoOriginal := 0, 0, 0, 0, 0, 0, 0, 0
 	var classes []string
+	entangled := map[*dest]bool{} // destinations that are a by-value copy of another one / were copied by value
+	isCopy := map[*dest]bool{}
 	for w, steps := range workers {
 		if len(steps) == 0 || len(steps) > maxSteps {
 			malformed()
@@ -149,6 +166,11 @@ func runSteps(c Case, workers [][]Step, concurrent bool, res *vkit.Result) {
 				d, seen := dests[st.Dest]
 				if !seen {
 					spec := c.Dests[st.Dest-1]
+					if spec.Copy {
+						// comes into being by a copy step only
+						malformed()
+						return
+					}
 					if d = newDest(spec.Type); d == nil {
 						malformed()
 						return
@@ -173,9 +195,34 @@ func runSteps(c Case, workers [][]Step, concurrent bool, res *vkit.Result) {
 					dests[st.Dest] = d
 				} else {
 					reusedSteps++
-					classes = append(classes, "dec:"+d.typ+":reused")
+					switch {
+					case isCopy[d]:
+						intoCopy++
+						classes = append(classes, "dec:"+d.typ+":into-value-copy")
+					case entangled[d]:
+						intoOriginal++
+						classes = append(classes, "dec:"+d.typ+":into-copied-original")
+					default:
+						classes = append(classes, "dec:"+d.typ+":reused")
+					}
 				}
 				r.d = d
+			case "copy":
+				if st.Ref < 1 || st.Ref > i || st.Dest < 1 || st.Dest > len(c.Dests) || dests[st.Dest] != nil {
+					malformed()
+					return
+				}
+				r.src = runs[w][st.Ref-1].d
+				spec := c.Dests[st.Dest-1]
+				if r.src == nil || !spec.Copy || spec.Type != r.src.typ || spec.Pre != nil {
+					malformed()
+					return
+				}
+				r.d = newDest(spec.Type)
+				dests[st.Dest] = r.d
+				entangled[r.d], entangled[r.src], isCopy[r.d] = true, true, true
+				copies++
+				classes = append(classes, "copy:"+spec.Type)
 			case "mut":
 				if st.Ref < 1 || st.Ref > i || !validMut(st.Mut) || st.Sel < 0 {
 					malformed()
@@ -184,6 +231,12 @@ func runSteps(c Case, workers [][]Step, concurrent bool, res *vkit.Result) {
 				ref := runs[w][st.Ref-1]
 				r.d, r.prep = ref.d, ref.prep
 				if r.d == nil && r.prep == nil {
+					malformed()
+					return
+				}
+				if r.d != nil && entangled[r.d] {
+					// once a value was copied by value, what the caller writes into one shows in the other (Go semantics, not the library's doing):
+					// in-place changes come before the copy (they leave shorter slices with spare capacity to the copy), not after it
 					malformed()
 					return
 				}
@@ -230,7 +283,7 @@ func runSteps(c Case, workers [][]Step, concurrent bool, res *vkit.Result) {
 
 	// phase 3: judge every step with the per-value oracle
 	var infos []any
-	greySteps, effective := 0, 0
+	greySteps, effective, copiedSlices := 0, 0, 0
 	againAfterChange := decodedAgainAfterChange(runs, concurrent)
 	lastUse := map[*dest]*stepRun{}
 	for w := range runs {
@@ -278,7 +331,7 @@ func runSteps(c Case, workers [][]Step, concurrent bool, res *vkit.Result) {
 				infos = append(infos, map[string]any{"step": what, "outcome": info["outcome"], "forms": info["forms"]})
 				// a decoded value is the caller's: what it holds after the last step is what it held when its decode returned
 				if lastUse[r.d] == r && r.dec.pan == nil {
-					stillHolds(res, r.d, r.dec.after, r.dec.afterS, "its decode returned")
+					stillHolds(res, r.d, r.dec.after, r.dec.afterS, "its decode returned", entangled[r.d])
 				}
 			case "mut":
 				what += " (the caller changes the " + r.d.describe(r.prep) + " of step " + fmt.Sprint(r.st.Ref) + " in place: " + describeMut(r.st.Mut, r.st.Sel) + ")"
@@ -293,7 +346,21 @@ func runSteps(c Case, workers [][]Step, concurrent bool, res *vkit.Result) {
 				infos = append(infos, map[string]any{"step": what, "containers": r.m.seen, "changed": r.m.changed})
 				// ... and what its owner made of it is what it holds when the sequence is over
 				if r.d != nil && lastUse[r.d] == r {
-					stillHolds(res, r.d, r.mutAfter, r.mutAfterS, "its owner changed it")
+					stillHolds(res, r.d, r.mutAfter, r.mutAfterS, "its owner changed it", entangled[r.d])
+				}
+			case "copy":
+				what += fmt.Sprintf(" (the caller copies the decoded %s of step %d by value: kept := *d)", r.d.typ, r.st.Ref)
+				if r.pan != nil {
+					res.Fail("C12:harness-defect-value-copy-panicked", "copying the value panicked (a defect of the check, not of the library): %v\n%s", r.pan, r.stack)
+					break
+				}
+				holds := ownHolds(r.d, r.copyAfter, r.copyAfterS)
+				if holds > 0 {
+					copiedSlices++
+				}
+				infos = append(infos, map[string]any{"step": what, "slices_of_library_types_with_elements": holds})
+				if lastUse[r.d] == r {
+					stillHolds(res, r.d, r.copyAfter, r.copyAfterS, "it was copied", true)
 				}
 			}
 			for k := before; k < len(res.Viol); k++ {
@@ -327,17 +394,35 @@ func runSteps(c Case, workers [][]Step, concurrent bool, res *vkit.Result) {
 			res.Label(kind + ":document-decoded-again-while-or-after-its-value-was-changed")
 		}
 	}
-	res.Grey = greySteps == total-muts
+	if copies > 0 {
+		res.Label(kind + ":decoded-value-copied-by-value")
+		if copiedSlices > 0 {
+			res.Label(kind + ":value-copy-shares-non-empty-slice-of-library-type")
+		}
+		if intoCopy > 0 {
+			res.Label(kind + ":decode-into-value-copy")
+		}
+		if intoOriginal > 0 {
+			res.Label(kind + ":decode-into-original-after-value-copy")
+		}
+	}
+	res.Grey = greySteps == total-muts-copies
 	if concurrent {
 		res.NonTrivial = len(workers) >= 2
 	} else {
-		res.NonTrivial = kept >= 2 || reusedSteps+preSteps > 0 || effective > 0
+		res.NonTrivial = kept >= 2 || reusedSteps+preSteps > 0 || effective > 0 || copies > 0
 	}
 	res.Key = kind + "|" + strings.Join(classes, ",")
 }
 
 // stillHolds: the destination holds, when the sequence is over, what it held at `since` (after / afterS).
-func stillHolds(res *vkit.Result, d *dest, after *snap, afterS any, since string) {
+// shared: the value is a by-value copy of another decoded value (or was copied): only what such a copy does not share by
+// encoding/json's documented behaviour is compared (copy_test.go).
+func stillHolds(res *vkit.Result, d *dest, after *snap, afterS any, since string, shared bool) {
+	if shared {
+		sharedStillHolds(res, d, after, afterS, since)
+		return
+	}
 	if d.sc != nil {
 		if now := d.sc.value(); !jsonEq(now, afterS) {
 			res.Fail("C12:decoded-value-changed-by-later-steps", "the decoded %s was %s when %s and is %s after the later steps: it shares memory with other values", d.typ, canonJSON(afterS), since, canonJSON(now))
@@ -455,9 +540,12 @@ func regNames(o *Obj) []string {
 // genSteps draws n steps for one goroutine; dests is the case's destination list (appended to), a goroutine only uses
 // the destinations it created itself.
 func genSteps(t *rapid.T, n int, dests *[]Dest, pool *docPool) []Step {
-	mode := rapid.SampledFrom([]string{"mixed", "mixed", "encode", "decode", "alias", "alias"}).Draw(t, "seqmode")
+	mode := rapid.SampledFrom([]string{"mixed", "mixed", "encode", "decode", "alias", "alias", "copy", "copy"}).Draw(t, "seqmode")
 	if mode == "alias" {
 		return genAliasSteps(t, n, dests, pool)
+	}
+	if mode == "copy" {
+		return genCopySteps(t, n, dests, pool)
 	}
 	var mine []int               // indices (1-based) of the destinations of this goroutine
 	var refs []int               // steps (1-based) whose value can be changed in place by a later step
